@@ -46,7 +46,7 @@ type c03Op struct {
 
 func (p *c03) Bounds(tier string) map[string]interface{} {
 	B, d := c03Bounds(tier)
-	return map[string]interface{}{"B(|S|+|T|)": B, "bfs_depth": d, "schemas": []string{"base", "keys"}, "stores": append(append([]string{}, store.Impls...), store.StructImpls...),
+	return map[string]interface{}{"B(|S|+|T|)": B, "bfs_depth": d, "schemas": []string{"base", "keys"}, "stores": append(append(append([]string{}, store.Impls...), "reflect-slice", "node-slice"), store.StructImpls...),
 		"sources": []string{"ref", "json", "xml"}, "strategies": []string{"upsert", "insert", "update"}, "directions": []string{"from", "into"},
 		"value alphabet": "2 values per leaf, 3 keys per list (4 tuples for compound keys), <=2 entries per list"}
 }
@@ -66,7 +66,7 @@ var c03Entries = map[string][]string{
 func (p *c03) Cases(tier string, emit func(interface{})) {
 	B, depth := c03Bounds(tier)
 	for _, schema := range []string{"base", "keys"} {
-		for _, st := range append(append([]string{}, store.Impls...), store.StructImpls...) {
+		for _, st := range append(append(append([]string{}, store.Impls...), "reflect-slice", "node-slice"), store.StructImpls...) {
 			for _, strat := range []string{"upsert", "insert", "update"} {
 				for _, entry := range c03Entries[schema] {
 					emit(c03Case{Part: "pairs", Schema: schema, Store: st, Source: "ref", Strat: strat, Dir: "from", Entry: entry, B: B})
@@ -119,7 +119,10 @@ func entryDefs(m *meta.Module, ep entryPoint) []meta.Definition {
 // c03Sources enumerates the S trees for an entry point.
 func c03Alpha(storeImpl string) model.Alpha {
 	a := model.DefaultAlpha()
-	if storeImpl != "ref" {
+	if strings.HasSuffix(storeImpl, "map") || storeImpl == "reflect-slice" || storeImpl == "node-slice" {
+		// map-backed lists index by the first key component only; in the map-of-maps stores a
+		// list that does not exist yet is created by the library as a map even in the "slice"
+		// variants. Only the struct stores have slices throughout.
 		a.Keys = model.DistinctFirstKeys
 	}
 	return a
